@@ -102,7 +102,7 @@ def gen_case(rng, ctx):
         evs = [other_event(k) for k in range(rng.randrange(0, 4))]
         # events written to the other bucket WHILE the stream is being fed (they get higher row ids than the
         # heartbeat bucket's events that exist by then)
-        late = [dict(after=rng.randrange(0, n), ev=other_event(100 + k)) for k in range(rng.randrange(0, 4))]
+        late = [dict(after=rng.randrange(0, n), ev=other_event(100 + k), with_ids=rng.random() < 0.3) for k in range(rng.randrange(0, 4))]
         others.append(dict(when=rng.choice(["before", "after"]), evs=evs, late=late))
     # the watcher's bucket may be deleted and re-created mid-stream (the watcher simply carries on)
     if zone:
@@ -244,7 +244,22 @@ def run_case(case, ctx):
                 break
             for j, o in enumerate(case["others"]):
                 for lt in o.get("late", []):
-                    if lt["after"] == k:
+                    if lt["after"] == k and lt.get("with_ids"):
+                        # a bulk insert into the OTHER bucket of events that carry ids (an import of an exported bucket, whose
+                        # ids also count from 1): ids that happen to be those of the stream's own events
+                        mine = [e.id for e in b.get(3)]
+                        batch = []
+                        for i_ in mine + [None]:
+                            e_ = mk_event(lt["ev"])
+                            e_.id = i_
+                            batch.append(e_)
+                        try:
+                            ds[f"other-{j}"].insert(batch)
+                        except Exception:  # noqa: BLE001 - refused, in whatever way
+                            pass
+                        others0 = dump_store(ds, skip={"hb"})
+                        ctx.count("late_other_bucket_bulk_inserts_carrying_the_streams_ids")
+                    elif lt["after"] == k:
                         ds[f"other-{j}"].insert(mk_event(lt["ev"]))
                         others0 = dump_store(ds, skip={"hb"})      # the other bucket legitimately grew
                         ctx.count("late_other_bucket_inserts")
